@@ -13,6 +13,7 @@ package main
 import (
 	"fmt"
 	"math/big"
+	"sort"
 
 	"github.com/MixinNetwork/mixin/common"
 	"github.com/MixinNetwork/mixin/config"
@@ -40,6 +41,7 @@ type Case struct {
 	Step    uint64 `json:"step,omitempty"`
 	Count   int    `json:"count,omitempty"`
 	Full    bool   `json:"full,omitempty"` // oracle additionally visits every hour of every day of the sweep
+	Kinds   []int  `json:"kinds,omitempty"` // consumers: chain state per accepted position (cycled): 0 none, 1 lagging, 2 leading
 	Qs      []Q    `json:"qs,omitempty"`
 }
 
@@ -107,10 +109,18 @@ func electOn(node *kernel.Node, op int, now uint64) electRes {
 	return electRes{id, pan}
 }
 
+// failCase, when set, is the case recorded with an election failure (the
+// enclosing consumers case: replaying the bare election on a fresh node would
+// not re-run the consumers).
+var failCase *Case
+
 // oracle for one election
 func oracleElect(c *vh.Ctx, cs Case, node, twin *kernel.Node, op int, now uint64) electRes {
 	nw := nets[cs.Mainnet]
 	one := Case{Kind: "elect", Name: cs.Name, Epoch: cs.Epoch, Mainnet: cs.Mainnet, Recs: cs.Recs, Qs: []Q{{Op: op, Now: now}}}
+	if failCase != nil {
+		one = *failCase
+	}
 	r := electOn(node, op, now)
 	r2 := electOn(twin, op, now)
 	if r != r2 {
@@ -367,8 +377,105 @@ func runTiming(c *vh.Ctx, cs Case) {
 		vh.App("CTiming", zts(cs.Epoch), coqRecs(nw, cs.Recs), lst(qt)))
 }
 
+// runConsumers: the membership lists handed to electSnapshotNode are the node's
+// memoised slices, and the same slices are handed to the cache-queue code.  The
+// same elections are asked before and after each of those consumers ran on the
+// same node; the answer must not change, must equal a fresh node's, and must
+// never be an end of the accepted list.
+func runConsumers(c *vh.Ctx, cs Case) {
+	nw := nets[cs.Mainnet]
+	node := buildNode(cs.Mainnet, cs.Epoch, cs.Recs)
+	defer node.VerifC10Close()
+	twin := buildNode(cs.Mainnet, cs.Epoch, shuffled(cs.Recs, 11))
+	defer twin.VerifC10Close()
+	var maxNow uint64
+	for _, q := range cs.Qs {
+		if q.Now > maxNow {
+			maxNow = q.Now
+		}
+	}
+	acc := node.NodesListWithoutState(maxNow, true)
+	if len(acc) == 0 || len(cs.Kinds) == 0 {
+		return
+	}
+	ids := make([]crypto.Hash, len(acc))
+	kinds := make([]int, len(acc))
+	for i, cn := range acc {
+		ids[i] = cn.IdForNetwork
+		kinds[i] = cs.Kinds[i%len(cs.Kinds)]
+	}
+	node.VerifC10InstallChains(ids[len(ids)/2], ids, kinds)
+	failCase = &cs
+	defer func() { failCase = nil }()
+	query := func() []electRes {
+		var rs []electRes
+		for _, q := range cs.Qs {
+			rs = append(rs, oracleElect(c, cs, node, twin, q.Op, q.Now))
+		}
+		return rs
+	}
+	emit := func(tag string, rs []electRes) {
+		var qt []string
+		for i, q := range cs.Qs {
+			qt = append(qt, fmt.Sprintf("(%d, %s, %s)", q.Op, zts(q.Now), obsElect(nw, rs[i])))
+		}
+		c.Case("consumers:"+tag, fmt.Sprintf("consumers|%s|%s|%d|%v|%v", tag, cs.Name, len(cs.Recs), cs.Kinds, qt), true, cs,
+			vh.App("CElect", zts(cs.Epoch), coqRecs(nw, cs.Recs), lst(qt)))
+	}
+	before := query()
+	emit("before", before)
+	type step struct {
+		name string
+		f    func()
+	}
+	steps := []step{
+		{"control-sorted-copy", func() {
+			cp := append([]*kernel.CNode{}, node.VerifC10ListWorkingAcceptedNodes(maxNow)...)
+			sort.Slice(cp, func(i, j int) bool { return cp[i].IdForNetwork.String() > cp[j].IdForNetwork.String() })
+		}},
+		{"filterLeadingNodes(accepted)", func() {
+			for _, q := range cs.Qs {
+				node.VerifC10FilterLeadingNodes(node.NodesListWithoutState(q.Now, true))
+			}
+		}},
+		{"filterLeadingNodes(working)", func() {
+			for _, q := range cs.Qs {
+				node.VerifC10FilterLeadingNodes(node.VerifC10ListWorkingAcceptedNodes(q.Now))
+			}
+		}},
+		{"findSnapshotNodes", func() {
+			all := node.VerifC10ListWorkingAcceptedNodes(maxNow)
+			leading, filter := node.VerifC10FilterLeadingNodes(all)
+			node.VerifC10FindSnapshotNodes(all, leading, filter, crypto.Blake3Hash([]byte("c29 consumers")))
+			for _, cn := range all {
+				node.VerifC10ChainCanProposeSnapshot(all, cn.IdForNetwork, maxNow)
+			}
+		}},
+		{"popAndProcessCacheQueue", func() { node.VerifC10PopAndProcessCacheQueue() }},
+	}
+	after := before
+	for _, st := range steps {
+		if pan, v := vh.Catch(st.f); pan {
+			c.Note(fmt.Sprintf("consumer %s panicked: %v", st.name, v))
+			c.Count("consumer-panic:" + st.name)
+		}
+		after = query()
+		for i := range after {
+			if after[i] != before[i] {
+				one := cs
+				c.Fail("election-changed-after-"+st.name, fmt.Sprintf("op %d at %d: elected %s before and %s after %s ran on the same node",
+					cs.Qs[i].Op, cs.Qs[i].Now, before[i].id, after[i].id, st.name), one)
+				break
+			}
+		}
+	}
+	emit("after", after)
+}
+
 func run(c *vh.Ctx, cs Case) {
 	switch cs.Kind {
+	case "consumers":
+		runConsumers(c, cs)
 	case "sweep":
 		runSweep(c, cs)
 	case "elect":
@@ -393,6 +500,7 @@ func main() {
 		"every hour of every day checked by the oracle on two real nodes fed the history in different orders); elect/remove/timing = " +
 		"random membership histories (genesis/pledge/accept/cancel/remove) queried at window edges +-1 ns, with and without a named removal " +
 		"transaction, by asking nodes inside and outside the membership; hours = the three hour predicates at every hour edge; " +
+		"consumers = the same elections before and after filterLeadingNodes / findSnapshotNodes / one cache-queue poll ran on the same node over its memoised membership slices (lagging and leading chains mixed), compared with a fresh node; " +
 		"non-trivial = the election/removal/timing check passed its early rejects; distinct = different history and observation vector"
 	if c.Replay != "" {
 		var cs Case
@@ -412,6 +520,9 @@ func main() {
 	for i := 0; i < n; i++ {
 		for _, cs := range randomCases(rng, i) {
 			run(c, cs)
+			if cs.Kind == "elect" && i%6 == 0 {
+				run(c, consumersFrom(rng, cs))
+			}
 		}
 	}
 	c.Finish()
